@@ -167,10 +167,10 @@ func c14Units(env *fw.Env) []int64 {
 	for k := 0; k < c14LongCount; k++ {
 		us = append(us, int64(c14ULong+k))
 	}
-	for j := 0; j < env.Pick(110, 3600); j++ {
+	for j := 0; j < env.Pick(110, 9000); j++ {
 		us = append(us, int64(c14UMutation+j))
 	}
-	for k := 0; k < env.Pick(40, 1200); k++ {
+	for k := 0; k < env.Pick(40, 3000); k++ {
 		us = append(us, int64(c14URandom+k))
 	}
 
